@@ -5,8 +5,10 @@ CFG = {
                  "Parsley.C02.real_spec", "Parsley.C02.ws_loop_eq_skip", "Parsley.C02.skipWs_run", "Parsley.C02.wsRun_run",
                  "Parsley.C02.parseObj_token", "Parsley.C02.spell_parse_name", "Parsley.C02.spell_parse_litstring",
                  "Parsley.C02.spell_parse_hexstring", "Parsley.C02.spell_parse_keyword", "Parsley.Shift.parseObj_pre",
+                 "Parsley.C02.spell_parse_int", "Parsley.C02.spell_parse_real", "Parsley.C02.spell_parse_ref",
+                 "Parsley.C02.numberOrRef_after_int", "Parsley.C02.reference_spec",
                  "Parsley.C16.parse_never_panics", "Parsley.C16.obj_loc"],
-    "partial": {"(spell_parse)": "END-TO-END through parse_pdf_obj (any leading whitespace/comment run, any context, any depth below the bound) for names, literal strings, hexadecimal strings, true/false/null: proved (spell_parse_*). Token level for integers and reals (integer_spec, integer_roundtrip, real_spec): proved; their composition with the reference look-ahead, and arrays/dictionaries/references, are not proved yet. Also proved: the whitespace/comment loop equals a byte-wise skipper on every input, and prefix independence of the whole object parser (parseObj_pre). Original note: the composite theorem `parseObj (spell v ch ++ ctx) = v` for all values/choices/contexts is not proved yet; "
+    "partial": {"(spell_parse)": "END-TO-END through parse_pdf_obj (any leading whitespace/comment run, any context, any depth below the bound) for names, literal strings, hexadecimal strings, true/false/null, reals, references (any non-empty whitespace runs) and integers followed by a delimiter or the end of the buffer: proved (spell_parse_*); the number branch of the dispatcher is characterised exactly (numberOrRef_after_int: integer unless the look-ahead `ws+ int ws+ R<non-regular>` succeeds). NOT proved yet: integers followed by whitespace inside arrays/dictionaries (needs the look-ahead analysis of the following token) and the structural induction over arrays and dictionaries. Also proved: the whitespace/comment loop equals a byte-wise skipper on every input, and prefix independence of the whole object parser (parseObj_pre). Original note: the composite theorem `parseObj (spell v ch ++ ctx) = v` for all values/choices/contexts is not proved yet; "
                 "proved so far: integers (IntegerP on every sign/digit string/context, and every encoder spelling incl. leading zeros), hexadecimal strings (every digit/whitespace body, odd-digit padding, any context), literal strings (every balanced-modulo-escapes body, any context) and the name token at full strength (windowed decoder = declarative #hh decoder; every raw/#hh spelling with any hex case decodes to the name; "
                 "whole-token round trip in any terminator context), plus cursor=end/no-panic for every input (C16). Numbers, strings, references, arrays and "
                 "dictionaries are decided by the spelling-generator correspondence (oracle = the value that was spelled)."},
